@@ -254,6 +254,17 @@ R_INTO_GET = make_seq_rule("R-try-into", 'Self::BulkString("GET".into())', 'Self
 R_INTO_SET = make_seq_rule("R-try-into", 'Self::BulkString("SET".into())', 'Self::BulkString(Bytes::from("SET"))')
 R_INTO_DEL = make_seq_rule("R-try-into", 'Self::BulkString("DEL".into())', 'Self::BulkString(Bytes::from("DEL"))')
 CMD_RULES = (R_INTO_GET, R_INTO_SET, R_INTO_DEL, R_TRY_INTO_DEL, R_TRY_INTO_GET, R_TRY_INTO_SET, R_SPAWN, R_FOR_KEYS, R_KV_GHOST)
+# client.rs: `.into()` spelled as the From impl it resolves to (rustc checks the type); the two error constructors that use a macro /
+# std::io::Error::new become shims; `keys.into_iter().map(Utf8Bytes::from).collect()` is std's element-wise map, in order
+R_CL_INTO_FRAME = make_seq_rule("R-into", "let frame: Frame = cmd.into();", "let frame: Frame = Frame::from(cmd);")
+R_CL_INTO_KEY = make_seq_rule("R-into", "Get::new(key.into())", "Get::new(Utf8Bytes::from(key))")
+R_CL_INTO_KEY2 = make_seq_rule("R-into", "Set::new(key.into(), value)", "Set::new(Utf8Bytes::from(key), value)")
+R_CL_INTO_ERR = make_seq_rule("R-into", "Err(command::Error::BadFrame(f).into())", "Err(net::Error::from(command::Error::BadFrame(f)))")
+R_CL_ANYHOW = make_seq_rule("R-macro", "super::Error::Storage(anyhow::anyhow!(err))", "net::Error::Storage(verif_anyhow_msg(err))")
+R_CL_RESET = make_seq_rule("R-into", 'Err(std::io::Error::new( std::io::ErrorKind::ConnectionReset, "connection reset by peer", ) .into())', "Err(net::Error::from(verif_connection_reset()))")
+R_CL_MAP = make_seq_rule("R-iter-map", "keys.into_iter().map(Utf8Bytes::from).collect()", "verif_map_utf8(keys)")
+R_CL_STR_EQ = make_seq_rule("R-str-eq", 'Frame::SimpleString(s) if s == "OK"', 'Frame::SimpleString(s) if verif_string_eq(&s, "OK")')
+CLIENT_RULES = (R_CL_STR_EQ, R_CL_INTO_FRAME, R_CL_INTO_KEY, R_CL_INTO_KEY2, R_CL_INTO_ERR, R_CL_ANYHOW, R_CL_RESET, R_CL_MAP)
 CMD_USES = "broadcast use super::error::verif_from_Error::axiom_from_Error_Io, super::error::verif_from_Error::axiom_from_Error_AsyncTask;\nuse super::verif_net as net;\nuse super::frame::{self, Frame};\nuse super::connection::Connection;\nuse super::command::{self, Utf8Bytes, ubytes, SCmd, reply, effect, del_fold, ok_text, req_frame, lemma_names_bytes, lemma_fview_array, b_del, b_get, b_set};\nuse std::convert::TryFrom;"
 UNITS["cmd"] = {
     "name": "cmd",
@@ -276,7 +287,7 @@ UNITS["cmd"] = {
             "impl Command::fn apply", "impl TryFrom<Frame> for Command::fn try_from", "impl TryFrom<Frame> for Command::type Error", "impl TryFrom<Parser> for Del::type Error",
             "impl TryFrom<Parser> for Get::type Error", "impl TryFrom<Parser> for Set::type Error", "impl TryFrom<Bytes> for Utf8Bytes::type Error", "impl Parser::fn new", "impl Parser::fn get_string", "impl Parser::fn get_bytes",
             "impl Parser::fn finish", "impl TryFrom<Parser> for Del::fn try_from", "impl TryFrom<Parser> for Get::fn try_from",
-            "impl TryFrom<Parser> for Set::fn try_from", "impl AsRef<Bytes> for Utf8Bytes::fn as_ref", "impl TryFrom<Bytes> for Utf8Bytes::fn try_from"]}),
+            "impl TryFrom<Parser> for Set::fn try_from", "impl AsRef<Bytes> for Utf8Bytes::fn as_ref", "impl TryFrom<Bytes> for Utf8Bytes::fn try_from", "impl From<String> for Utf8Bytes::fn from"]}),
         ("raw", "lemmas/cmd_views_get.rs", "lemma", {"mod": "get"}),
         ("repo", "src/net/command/get.rs", {"mod": "get", "rules": CMD_RULES, "only": ["struct Get", "impl Get::fn new", "impl Get::fn apply", "impl Get::fn verif_blocking", "impl From<Get> for Frame::fn from"],
                                             "outline": {"impl Get::fn apply": "Result<Option<bytes::Bytes>, KV::Error>"}}),
@@ -288,11 +299,15 @@ UNITS["cmd"] = {
                                             "outline": {"impl Del::fn apply": "Result<i64, KV::Error>"}}),
         ("raw", "lemmas/srv_lemmas.rs", "lemma", {"mod": "server"}),
         ("repo", "src/net/server.rs", {"mod": "server", "rules": CMD_RULES + (rule_mut_self, R_TRYFROM_CALL), "select": True, "only": ["struct Handler", "impl Handler<KV>::fn run"]}),
+        ("raw", "prelude/client_prelude.rs", "prelude", {"mod": "client"}),
+        ("raw", "lemmas/client_lemmas.rs", "lemma", {"mod": "client"}),
+        ("repo", "src/net/client.rs", {"mod": "client", "rules": CLIENT_RULES, "only": ["struct Client", "impl Client::fn get", "impl Client::fn set", "impl Client::fn del", "impl Client::fn read_response"]}),
     ],
     "mod_uses": {"connection": "broadcast use super::error::verif_from_Error::axiom_from_Error_Io;\nuse super::frame::{self, Frame};", "error": "",
                  "command": "use super::frame::{self, Frame};\nuse super::connection::Connection;\nuse super::{del::Del, get::Get, set::Set};\nuse std::convert::TryFrom;\nuse vstd::std_specs::iter::IteratorSpec;",
                  "get": CMD_USES, "set": CMD_USES, "del": CMD_USES,
-                 "server": "use std::sync::Arc;\nuse std::convert::TryFrom;\nuse super::command::{Command, SCmd, spec_command, reply, effect, cview, req_frame};\nuse super::connection::Connection;\nuse super::frame::{self, Frame};"},
+                 "server": "use std::sync::Arc;\nuse std::convert::TryFrom;\nuse super::command::{Command, SCmd, spec_command, reply, effect, cview, req_frame};\nuse super::connection::Connection;\nuse super::frame::{self, Frame};",
+                 "client": CMD_USES + "\nuse super::{del::Del, get::Get, set::Set};"},
     "root_uses": "pub use frame::*;\npub use error::Error;\npub use connection::Connection;\n",
     "extern": ["bytes"],
 }
@@ -303,9 +318,11 @@ import copy as _copy
 _c10 = _copy.deepcopy({k: v for k, v in UNITS["cmd"].items() if k != "parts"})
 _c10["name"] = "cmd10"
 _c10["specs"] = ["frame.spec", "connection.spec", "command.spec", "server10.spec"]
-_c10["spec_skip"] = {"command.spec": ("src/net/server.rs",)}
+_c10["spec_skip"] = {"command.spec": ("src/net/server.rs", "src/net/client.rs")}
 _parts = []
 for _p in UNITS["cmd"]["parts"]:
+    if "client" in _p[1]:
+        continue    # the client is verified once, in unit cmd
     if _p[0] == "repo" and _p[1].startswith("src/net/command"):
         _o = dict(_p[2]); _o["stub_all"] = True
         _parts.append(("repo", _p[1], _o))
